@@ -1559,5 +1559,5 @@ Proof.
     split; [exact J4|split; [apply enqueue_fold_QS; eapply QS_same; [exact S3|reflexivity]|rewrite P4; exact Qb]]. }
   destruct K4 as (J4 & S4 & Q4). inversion H2; subst. destruct (tl_empty l4) eqn:Em; [|split; auto]. split.
   - eapply J_pdel with (p := p4); eauto; try reflexivity. intros l0 Hl0. rewrite Q4 in Hl0. inversion Hl0; subst. apply tl_empty_items; auto.
-  - eapply QS_same; eauto. reflexivity.
+  - eapply QS_same; eauto; reflexivity.
 Qed.
